@@ -1,136 +1,360 @@
 import HappyModel.C09.Pool
-/-! Invariants of the repaired connection-pool model (`reserve = true`). -/
+/-! Invariants of the repaired connection-pool model (`reserve = true`) for all nine segments.
+`Inv0` is the part that does not need count conservation (slot bound, set-up split, `min ≤ max`);
+`Inv` adds conservation.  Both are preserved by every segment in every state. -/
 namespace HappyModel.C09.Pool
+
+/-- the part of the invariant that does not mention the connection lists -/
+structure Inv0 (s : St) : Prop where
+  res : s.reserve = true
+  bound : s.total ≤ s.max
+  split : s.creating = s.creators.length + s.wflight
+  minle : s.min ≤ s.max
 
 structure Inv (s : St) : Prop where
   res : s.reserve = true
   bound : s.total ≤ s.max
   conserve : s.active.length + s.idle.length + s.creating = s.total
-  head : s.waiters ≠ [] → s.idle = [] ∧ s.total = s.max
+  split : s.creating = s.creators.length + s.wflight
+  minle : s.min ≤ s.max
 
-theorem init_inv (max : Nat) : Inv { max := max } := ⟨rfl, Nat.zero_le _, rfl, by simp⟩
+theorem Inv.inv0 {s : St} (h : Inv s) : Inv0 s := ⟨h.res, h.bound, h.split, h.minle⟩
+
+theorem init_inv' (max min : Nat) (h : min ≤ max) : Inv { max := max, min := min } :=
+  ⟨rfl, Nat.zero_le _, rfl, rfl, h⟩
+
+theorem init_inv (max : Nat) : Inv { max := max } := init_inv' max 0 (Nat.zero_le _)
+
+/-! ### definitional unfoldings -/
 
 theorem step_acq (s : St) (id : Nat) : step s (.acq id) =
     match s.idle with
     | c :: rest => ({ s with idle := rest, active := s.active ++ [c] }, .idle c)
     | [] =>
-      if s.total < s.max then
-        ({ s with creating := s.creating + 1, total := if s.reserve then s.total + 1 else s.total }, .creating)
+      if s.total < s.max then (startCreate s id, .creating)
       else ({ s with waiters := s.waiters ++ [id] }, .waiting) := rfl
 
 theorem step_made (s : St) (id : Nat) : step s (.made id) =
-    if s.creating = 0 then (s, .bad)
+    if !s.creators.contains id then (s, .bad)
     else
-      ({ s with creating := s.creating - 1, nextConn := s.nextConn + 1,
+      ({ s with creating := s.creating - 1, creators := s.creators.erase id, nextConn := s.nextConn + 1,
                 total := if s.reserve then s.total else s.total + 1,
                 active := s.active ++ [s.nextConn + 1] }, .conn (s.nextConn + 1)) := rfl
 
 theorem step_poll (s : St) (id : Nat) : step s (.poll id) =
     match s.handed.find? (·.1 == id) with
     | some h => ({ s with handed := s.handed.filter (·.1 != id) }, .got h.2)
-    | none => (s, .wait) := rfl
+    | none =>
+      if s.waiters.head? != some id then (s, .wait)
+      else match s.idle with
+        | c :: rest => ({ s with waiters := s.waiters.tail, idle := rest, active := s.active ++ [c] }, .idle c)
+        | [] =>
+          if s.total < s.max then (startCreate { s with waiters := s.waiters.tail } id, .creating)
+          else (s, .wait) := rfl
 
 theorem step_timeout (s : St) (id : Nat) : step s (.timeout id) =
     if (s.handed.find? (·.1 == id)).isSome then (s, .bad)
     else ({ s with waiters := s.waiters.filter (· != id) }, .timedOut) := rfl
 
 theorem step_rel (s : St) (c : Nat) : step s (.rel c) =
-    if !s.active.contains c then (s, .unknown)
-    else match s.waiters with
-      | w :: ws => ({ s with waiters := ws, handed := s.handed ++ [(w, c)] }, .handoff w)
-      | [] => ({ s with active := s.active.erase c, idle := s.idle ++ [c] }, .toIdle) := rfl
+    if !s.active.contains c then (s, .unknown) else giveBack s c := rfl
+
+theorem step_abandon (s : St) (id : Nat) : step s (.abandon id) =
+    if s.creators.contains id then
+      ({ s with creating := s.creating - 1, creators := s.creators.erase id,
+                total := if s.reserve then s.total - 1 else s.total }, .rolledBack)
+    else match s.handed.find? (·.1 == id) with
+      | some h =>
+        if !s.active.contains h.2 then ({ s with handed := s.handed.filter (·.1 != id) }, .nothing)
+        else giveBack { s with handed := s.handed.filter (·.1 != id) } h.2
+      | none =>
+        if s.waiters.contains id then ({ s with waiters := s.waiters.filter (· != id) }, .dequeued)
+        else (s, .nothing) := rfl
+
+theorem step_idleCheck (s : St) (c e : Nat) : step s (.idleCheck c e) =
+    if s.idle.contains c && stampOf s.stamp c == some e then
+      if s.min < s.total then
+        ({ s with idle := s.idle.erase c, total := s.total - 1, closed := s.closed ++ [c] }, .closed)
+      else (s, .kept)
+    else (s, .stale) := rfl
+
+theorem step_warm (s : St) : step s .warm =
+    if s.total < s.min then
+      ({ s with creating := s.creating + 1, wflight := s.wflight + 1,
+                total := if s.reserve then s.total + 1 else s.total }, .creating)
+    else (s, .done) := rfl
+
+theorem step_wmade (s : St) : step s .wmade =
+    if s.wflight = 0 then (s, .bad)
+    else
+      ({ s with creating := s.creating - 1, wflight := s.wflight - 1, nextConn := s.nextConn + 1,
+                total := if s.reserve then s.total else s.total + 1,
+                idle := s.idle ++ [s.nextConn + 1], stamp := setStamp s.stamp (s.nextConn + 1) s.now },
+       .conn (s.nextConn + 1)) := rfl
+
+theorem giveBack_eq (s : St) (c : Nat) : giveBack s c =
+    match s.waiters with
+    | w :: ws => ({ s with waiters := ws, handed := s.handed ++ [(w, c)] }, .handoff w)
+    | [] => ({ s with active := s.active.erase c, idle := s.idle ++ [c], stamp := setStamp s.stamp c s.now },
+             .toIdle) := rfl
+
+/-! ### `Inv0`: every segment, every state -/
+
+theorem giveBack_inv0 (s : St) (c : Nat) (inv : Inv0 s) : Inv0 (giveBack s c).1 := by
+  rw [giveBack_eq]
+  split <;> exact ⟨inv.res, inv.bound, inv.split, inv.minle⟩
+
+theorem creators_pos {s : St} {id : Nat} (h : s.creators.contains id = true) :
+    id ∈ s.creators ∧ 0 < s.creators.length := by
+  have hm : id ∈ s.creators := List.contains_iff_mem.1 h
+  exact ⟨hm, List.length_pos_of_mem hm⟩
+
+theorem step_inv0 (s : St) (o : Op) (inv : Inv0 s) : Inv0 (step s o).1 := by
+  obtain ⟨hres, hb, hs, hm⟩ := inv
+  cases o with
+  | acq id =>
+    rw [step_acq]
+    split
+    · exact ⟨hres, hb, hs, hm⟩
+    · split
+      · refine ⟨hres, ?_, ?_, hm⟩
+        · simp only [startCreate, hres, if_true]; omega
+        · simp only [startCreate, List.length_append, List.length_singleton]; omega
+      · exact ⟨hres, hb, hs, hm⟩
+  | made id =>
+    rw [step_made]
+    split
+    · exact ⟨hres, hb, hs, hm⟩
+    · rename_i hc
+      have hc' : s.creators.contains id = true := by simpa using hc
+      obtain ⟨hmem, hpos⟩ := creators_pos hc'
+      refine ⟨hres, ?_, ?_, hm⟩
+      · exact hb
+      · simp only [List.length_erase_of_mem hmem]; omega
+  | poll id =>
+    rw [step_poll]
+    split
+    · exact ⟨hres, hb, hs, hm⟩
+    · split
+      · exact ⟨hres, hb, hs, hm⟩
+      · split
+        · exact ⟨hres, hb, hs, hm⟩
+        · split
+          · refine ⟨hres, ?_, ?_, hm⟩
+            · simp only [startCreate, hres, if_true]; omega
+            · simp only [startCreate, List.length_append, List.length_singleton]; omega
+          · exact ⟨hres, hb, hs, hm⟩
+  | timeout id =>
+    rw [step_timeout]
+    split <;> exact ⟨hres, hb, hs, hm⟩
+  | rel c =>
+    rw [step_rel]
+    split
+    · exact ⟨hres, hb, hs, hm⟩
+    · exact giveBack_inv0 _ _ ⟨hres, hb, hs, hm⟩
+  | abandon id =>
+    rw [step_abandon]
+    split
+    · rename_i hc
+      obtain ⟨hmem, hpos⟩ := creators_pos hc
+      refine ⟨hres, ?_, ?_, hm⟩
+      · dsimp only; omega
+      · simp only [List.length_erase_of_mem hmem]; omega
+    · split
+      · split
+        · exact ⟨hres, hb, hs, hm⟩
+        · exact giveBack_inv0 _ _ ⟨hres, hb, hs, hm⟩
+      · split <;> exact ⟨hres, hb, hs, hm⟩
+  | idleCheck c e =>
+    rw [step_idleCheck]
+    split
+    · split
+      · refine ⟨hres, ?_, hs, hm⟩
+        show s.total - 1 ≤ s.max
+        omega
+      · exact ⟨hres, hb, hs, hm⟩
+    · exact ⟨hres, hb, hs, hm⟩
+  | warm =>
+    rw [step_warm]
+    split
+    · refine ⟨hres, ?_, ?_, hm⟩
+      · dsimp only; omega
+      · show s.creating + 1 = s.creators.length + (s.wflight + 1)
+        omega
+    · exact ⟨hres, hb, hs, hm⟩
+  | wmade =>
+    rw [step_wmade]
+    split
+    · exact ⟨hres, hb, hs, hm⟩
+    · refine ⟨hres, ?_, ?_, hm⟩
+      · exact hb
+      · show s.creating - 1 = s.creators.length + (s.wflight - 1)
+        omega
+
+/-! ### conservation -/
+
+theorem giveBack_conserve (s : St) (c : Nat) (hm : c ∈ s.active)
+    (hc : s.active.length + s.idle.length + s.creating = s.total) :
+    (giveBack s c).1.active.length + (giveBack s c).1.idle.length + (giveBack s c).1.creating
+      = (giveBack s c).1.total := by
+  rw [giveBack_eq]
+  split
+  · exact hc
+  · have hl := List.length_erase_of_mem hm
+    have hpos : 0 < s.active.length := List.length_pos_of_mem hm
+    simp only [List.length_append, List.length_singleton]
+    rw [hl]; omega
 
 theorem step_inv (s : St) (o : Op) (inv : Inv s) : Inv (step s o).1 := by
+  have i0 := step_inv0 s o inv.inv0
+  refine ⟨i0.res, i0.bound, ?_, i0.split, i0.minle⟩
   have hres := inv.res
-  have hb := inv.bound
   have hc := inv.conserve
+  have hs := inv.split
   cases o with
   | acq id =>
     rw [step_acq]
     split
     · rename_i c rest hi
-      have hw : s.waiters = [] := by
-        cases hq : s.waiters with
-        | nil => rfl
-        | cons w ws => have := (inv.head (by rw [hq]; simp)).1; rw [hi] at this; cases this
-      refine ⟨hres, hb, ?_, ?_⟩
-      · rw [hi] at hc; simp at hc ⊢; omega
-      · intro h; exact absurd hw h
-    · rename_i hi
-      split
-      · rename_i hlt
-        have hw : s.waiters = [] := by
-          cases hq : s.waiters with
-          | nil => rfl
-          | cons w ws => have := (inv.head (by rw [hq]; simp)).2; omega
-        refine ⟨hres, ?_, ?_, ?_⟩
-        · simp only [hres, if_true]; omega
-        · simp only [hres, if_true]; omega
-        · intro h; exact absurd hw h
-      · rename_i hge
-        refine ⟨hres, hb, hc, ?_⟩
-        intro _; exact ⟨hi, by show s.total = s.max; omega⟩
+      rw [hi] at hc
+      simp only [List.length_append, List.length_cons, List.length_nil] at hc ⊢
+      omega
+    · split
+      · simp only [startCreate, hres, if_true]; omega
+      · exact hc
   | made id =>
     rw [step_made]
     split
-    · exact inv
+    · exact hc
     · rename_i hcr
-      refine ⟨hres, ?_, ?_, inv.head⟩
-      · simp only [hres, if_true]; exact hb
-      · simp only [hres, if_true, List.length_append, List.length_singleton]; omega
+      have hcr' : s.creators.contains id = true := by simpa using hcr
+      obtain ⟨_, hpos⟩ := creators_pos hcr'
+      simp only [List.length_append, List.length_singleton]; omega
   | poll id =>
     rw [step_poll]
     split
-    · exact ⟨hres, hb, hc, inv.head⟩
-    · exact inv
+    · exact hc
+    · split
+      · exact hc
+      · split
+        · rename_i c rest hi
+          rw [hi] at hc
+          simp only [List.length_append, List.length_cons, List.length_nil] at hc ⊢
+          omega
+        · split
+          · simp only [startCreate, hres, if_true]; omega
+          · exact hc
   | timeout id =>
     rw [step_timeout]
-    split
-    · exact inv
-    · refine ⟨hres, hb, hc, ?_⟩
-      intro h
-      apply inv.head
-      intro hq
-      apply h
-      show s.waiters.filter (· != id) = []
-      rw [hq]; rfl
+    split <;> exact hc
   | rel c =>
     rw [step_rel]
     split
-    · exact inv
+    · exact hc
     · rename_i hact
       have hmem : c ∈ s.active := by simpa using hact
+      exact giveBack_conserve s c hmem hc
+  | abandon id =>
+    rw [step_abandon]
+    split
+    · rename_i hcr
+      obtain ⟨_, hpos⟩ := creators_pos hcr
+      dsimp only; omega
+    · split
+      · rename_i h hf
+        split
+        · exact hc
+        · rename_i hact
+          have hmem : h.2 ∈ s.active := by simpa using hact
+          exact giveBack_conserve { s with handed := s.handed.filter (·.1 != id) } h.2 hmem hc
+      · split <;> exact hc
+  | idleCheck c e =>
+    rw [step_idleCheck]
+    split
+    · rename_i hcond
       split
-      · rename_i w ws hq
-        refine ⟨hres, hb, hc, ?_⟩
-        intro _
-        exact inv.head (by rw [hq]; simp)
-      · rename_i hq
-        refine ⟨hres, hb, ?_, ?_⟩
-        · have hl := List.length_erase_of_mem hmem
-          have hpos : 0 < s.active.length := List.length_pos_of_mem hmem
-          simp only [List.length_append, List.length_singleton]
-          rw [hl]; omega
-        · intro h; exact absurd hq h
+      · rename_i hlt
+        have hmem : c ∈ s.idle := by
+          simp only [Bool.and_eq_true] at hcond
+          exact List.contains_iff_mem.1 hcond.1
+        have hl := List.length_erase_of_mem hmem
+        have hpos : 0 < s.idle.length := List.length_pos_of_mem hmem
+        show s.active.length + (s.idle.erase c).length + s.creating = s.total - 1
+        rw [hl]; omega
+      · exact hc
+    · exact hc
+  | warm =>
+    rw [step_warm]
+    split
+    · dsimp only; omega
+    · exact hc
+  | wmade =>
+    rw [step_wmade]
+    split
+    · exact hc
+    · rename_i hw
+      simp only [List.length_append, List.length_singleton]; omega
+
+/-! ### runs -/
+
+theorem run_inv0 (s : St) (ops : List Op) (inv : Inv0 s) : Inv0 (run s ops) := by
+  induction ops generalizing s with
+  | nil => exact inv
+  | cons o os ih => exact ih _ (step_inv0 s o inv)
 
 theorem run_inv (s : St) (ops : List Op) (inv : Inv s) : Inv (run s ops) := by
   induction ops generalizing s with
   | nil => exact inv
   | cons o os ih => exact ih _ (step_inv s o inv)
 
+theorem inv0_now {s : St} (t : Nat) (inv : Inv0 s) : Inv0 { s with now := t } :=
+  ⟨inv.res, inv.bound, inv.split, inv.minle⟩
+
+theorem inv_now {s : St} (t : Nat) (inv : Inv s) : Inv { s with now := t } :=
+  ⟨inv.res, inv.bound, inv.conserve, inv.split, inv.minle⟩
+
+theorem stepAt_inv0 (s : St) (t : Nat) (o : Op) (inv : Inv0 s) : Inv0 (stepAt s t o).1 :=
+  step_inv0 _ o (inv0_now t inv)
+
+theorem stepAt_inv (s : St) (t : Nat) (o : Op) (inv : Inv s) : Inv (stepAt s t o).1 :=
+  step_inv _ o (inv_now t inv)
+
+theorem runAt_inv0 (s : St) (ops : List (Nat × Op)) (inv : Inv0 s) : Inv0 (runAt s ops) := by
+  induction ops generalizing s with
+  | nil => exact inv
+  | cons e os ih => exact ih _ (stepAt_inv0 s e.1 e.2 inv)
+
+theorem runAt_inv (s : St) (ops : List (Nat × Op)) (inv : Inv s) : Inv (runAt s ops) := by
+  induction ops generalizing s with
+  | nil => exact inv
+  | cons e os ih => exact ih _ (stepAt_inv s e.1 e.2 inv)
+
+/-! ### `max` and `min` never change -/
+
 theorem step_max (s : St) (o : Op) : (step s o).1.max = s.max := by
-  cases o with
-  | acq id => rw [step_acq]; split; · rfl
-              split <;> rfl
-  | made id => rw [step_made]; split <;> rfl
-  | poll id => rw [step_poll]; split <;> rfl
-  | timeout id => rw [step_timeout]; split <;> rfl
-  | rel c => rw [step_rel]; split; · rfl
-             split <;> rfl
+  cases o <;> simp only [step, giveBack, startCreate] <;> (repeat' split) <;> rfl
+
+theorem step_min (s : St) (o : Op) : (step s o).1.min = s.min := by
+  cases o <;> simp only [step, giveBack, startCreate] <;> (repeat' split) <;> rfl
 
 theorem run_max (s : St) (ops : List Op) : (run s ops).max = s.max := by
   induction ops generalizing s with
   | nil => rfl
   | cons o os ih => simp [run, ih, step_max]
+
+theorem run_min (s : St) (ops : List Op) : (run s ops).min = s.min := by
+  induction ops generalizing s with
+  | nil => rfl
+  | cons o os ih => simp [run, ih, step_min]
+
+theorem runAt_max (s : St) (ops : List (Nat × Op)) : (runAt s ops).max = s.max := by
+  induction ops generalizing s with
+  | nil => rfl
+  | cons e os ih => simp [runAt, stepAt, ih, step_max]
+
+theorem runAt_min (s : St) (ops : List (Nat × Op)) : (runAt s ops).min = s.min := by
+  induction ops generalizing s with
+  | nil => rfl
+  | cons e os ih => simp [runAt, stepAt, ih, step_min]
 
 end HappyModel.C09.Pool
